@@ -672,8 +672,11 @@ class Ctx:
             for a, pw in m:
                 if pw < 1:
                     return False
-                if not (a in self.int_atoms or a[0] in ('idiv', 'mod', 'f2i', 'bitand', 'bitor', 'shr', 'shl')):
-                    return False
+                if a in self.int_atoms or a[0] in ('idiv', 'mod', 'f2i', 'bitand', 'bitor', 'shr', 'shl'):
+                    continue
+                if a[0] in ('abs', 'min', 'max') and all(isinstance(x, Poly) and self._int_valued(x) for x in a[1:]):
+                    continue     # |p|, min(p,q), max(p,q) of integer-valued terms are integer-valued
+                return False
         return True
 
     def _rng_rec(self, p, atoms, ranges, depth):
